@@ -163,6 +163,8 @@ def run_jobs(jobs: Sequence[Dict[str, Any]], batch: int = 25, workers: int = 8,
 
 def failure_key(r: Dict[str, Any]) -> Optional[str]:
     """The oracle: returns 0 or (non-zero and stderr non-empty); never raises."""
+    if r.get("timeout"):
+        return None      # running time is outside the property; counted by the streams
     if r["exc"] is not None:
         site = "recursion" if r["exc"]["class"] == "RecursionError" else r["exc"]["site"]
         return f'{r["exc"]["class"]}@{site}'
@@ -174,6 +176,8 @@ def failure_key(r: Dict[str, Any]) -> Optional[str]:
 
 
 def stage_of(r: Dict[str, Any]) -> str:
+    if r.get("timeout"):
+        return "timeout"
     if r["exc"] is not None:
         return "crash"
     if r["rc"] == 0:
@@ -260,7 +264,7 @@ def report(ctx: lib.Ctx, stream: str, found: Dict[str, Dict[str, Any]]) -> None:
             (v["exc"]["class"] + ": " + v["exc"]["message"][:300]) if v.get("exc") else
             f"exit-status contract broken: {v['raw_key']}",
             {"model_text": shown, "target": v.get("target", "python"), "mutations": v["ops"],
-             "occurrences_in_this_run": v["count"]},
+             "occurrences_in_this_run": v["count"], "snippets": v.get("snippets") or {}},
             {"frames": (v.get("exc") or {}).get("frames"), "contract": (v.get("exc") or {}).get("contract"),
              "traceback": (v.get("exc") or {}).get("traceback", "")[-1500:]},
             stream,
@@ -286,6 +290,12 @@ def system_stream(ctx: lib.Ctx) -> None:
         others = [x for x in sweep if x[1] not in core]
         sweep = chosen + ctx.rng.sample(others, min(len(others), 30 if chosen else 200))
     items += [(t, ["sweep:" + label.split(":")[0]]) for t, label in sweep]
+    # characters on which the tokenizer, splitlines() and split("\n") disagree, placed
+    # before constructs that produce located errors (also inside f-strings)
+    boundary = ch.boundary_texts()
+    if not ctx.thorough:
+        boundary = ch.boundary_core(boundary)
+    items += [(t, ["boundary:" + label.split(":")[1]]) for t, label in boundary]
     items += gen_texts(ctx.rng, ctx.n(60, 12000), ctx.n(25, 3000))
     results = run_jobs([job_of(t) for t, _ in items], batch=25 if not ctx.thorough else 60,
                        workers=10)
